@@ -413,7 +413,48 @@ fn source_program_named(r: &mut Rng, sweep: bool, rich: bool) -> String {
 
 fn compile_source(text: &str) -> Option<Model> {
     let t = text.to_string();
-    std::panic::catch_unwind(move || RoocParser::new(t).parse_and_transform(vec![], &IndexMap::new()).ok()).ok().flatten()
+    // the property is about well-typed sources: the source passes the type checker, as its rendering must
+    std::panic::catch_unwind(move || {
+        let p = RoocParser::new(t);
+        let m = p.parse_and_transform(vec![], &IndexMap::new()).ok()?;
+        p.type_check(&vec![], &IndexMap::new()).ok()?;
+        Some(m)
+    }).ok().flatten()
+}
+
+/// iterated families and (indexed or shared) row names: the compiled text spells every expanded member literally
+/// (`x_on`, `cap_A`), a fragment may ALSO be the name of a declared variable, and rows that share one source name
+/// are de-duplicated by the compiler (`cap`, `cap__2`, `cap__3`)
+fn family_program(r: &mut Rng) -> String {
+    let (set, frags, wh): (&str, Vec<&str>, &str) = match r.below(4) {
+        0 => ("nodes(G)", vec!["A", "B"], "where\n    let G = Graph { A -> [ B ], B -> [ A ] }\n"),
+        1 => ("nodes(G)", vec!["A", "B", "C"], "where\n    let G = Graph { A -> [ B, C ], B -> [ A ], C -> [ ] }\n"),
+        2 => ("[\"on\", \"off\", \"up\"]", vec!["on", "off", "up"], ""),
+        _ => ("0..3", vec![], ""),
+    };
+    // a declared variable whose name is one of the fragments (or not)
+    let extra_name = if !frags.is_empty() && r.chance(2, 3) { frags[r.below(frags.len())] } else { "pick" };
+    let extra_ty = *r.pick(&["Boolean", "Boolean", "IntegerRange(0, 3)", "Real(-1, 2)", "NonNegativeReal(0, 2)"]);
+    let row_name = *r.pick(&["cap_s: ", "cap: ", "cap: ", "", "r_s: "]);
+    let cmp = *r.pick(&["<=", ">="]);
+    let mut s = String::new();
+    let sense = *r.pick(&["min", "max"]);
+    s.push_str(&format!("{} sum(s in {}) {{ {}x_s }} + {}{}\n", sense, set, r.pick(&["", "2", "0.5"]), r.pick(&["", "2", "1.5"]), extra_name));
+    s.push_str("s.t.\n");
+    s.push_str(&format!("    {}x_s {} {} {} {} for s in {}\n", row_name, cmp, 1 + r.below(4), r.pick(&["+", "-"]), extra_name, set));
+    if r.chance(1, 2) { s.push_str(&format!("    total: sum(s in {}) {{ x_s }} <= {}\n", set, 4 + r.below(5))); }
+    let logic_rows = r.below(4);
+    let lname = *r.pick(&["r: ", "cap: ", "r: ", ""]);
+    for k in 0..logic_rows {
+        if k == 2 && r.chance(1, 2) { s.push_str("    other: p or q\n"); }
+        s.push_str(&format!("    {}{}\n", lname, r.pick(&["p or q", "p implies q", "p xor q", "(not p) or q", "p iff q"])));
+    }
+    s.push_str(wh);
+    s.push_str("define\n");
+    s.push_str(&format!("    x_s as {} for s in {}\n", r.pick(&["NonNegativeReal(0, 10)", "Real(-5, 5)", "NonNegativeReal"]), set));
+    s.push_str(&format!("    {} as {}\n", extra_name, extra_ty));
+    if logic_rows > 0 { s.push_str("    p, q as Boolean\n"); }
+    s
 }
 
 // ------------------------------------------------------------------------------------------------ linear-model generator
@@ -476,6 +517,10 @@ fn seeded_sources() -> Vec<(&'static str, &'static str)> {
         ("seed-neg-not", "max x\ns.t.\n    x + -(not d) <= 1\n    x - (-(not b)) >= -3\ndefine\n    x as Real(-5, 10)\n    b, d as Boolean"),
         ("seed-not-neg", "max x\ns.t.\n    (not (-b)) or d\n    x <= 3\ndefine\n    x as Real(-5, 10)\n    b, d as Boolean"),
         ("seed-exponent-like-names", "min 2.5 * e1 + 0.5 * E2\ns.t.\n    1.5 * e1 - 0.25 * E2 >= 1\n    e1 + E2 <= 6\ndefine\n    e1, E2 as Real(-5, 10)"),
+        ("seed-family-fragment-names-boolean", "max sum(v in nodes(G)) { w_v } + 2A\ns.t.\n    w_v <= 3 + A for v in nodes(G)\n    total: sum(v in nodes(G)) { w_v } <= 5\nwhere\n    let G = Graph { A -> [ B ], B -> [ A ] }\ndefine\n    w_v as NonNegativeReal(0, 10) for v in nodes(G)\n    A as Boolean"),
+        ("seed-row-name-fragment-names-boolean", "min sum(s in [\"on\", \"off\"]) { x_s } + on\ns.t.\n    cap_s: x_s >= 1 - on for s in [\"on\", \"off\"]\ndefine\n    x_s as NonNegativeReal(0, 4) for s in [\"on\", \"off\"]\n    on as Boolean"),
+        ("seed-three-rows-one-name", "max x_0 + x_1 + x_2\ns.t.\n    cap: x_i <= i + 1 for i in 0..3\ndefine\n    x_i as NonNegativeReal for i in 0..3"),
+        ("seed-three-logic-rows-one-name", "solve\ns.t.\n    r: a xor b\n    r: a implies b\n    other: a or c\n    r: b or c\ndefine\n    a, b, c as Boolean"),
         ("seed-neg-literal", "min -3 * x + (-2) * -y\ns.t.\n    x - -y >= -1\ndefine\n    x, y as Real(-5, 10)"),
     ]
 }
@@ -598,6 +643,11 @@ pub fn generate(seed: u64, n: usize, thorough: bool, corpus: Option<&str>) -> Ve
         if !o.is_empty() && r.chance(1, 2) { o[0] = *r.pick(&[f64::NAN, f64::INFINITY, -0.0, 1e22, 5e-324]); }
         let off = if r.chance(1, 2) { *r.pick(&[-0.0, -1e-6, -0.5, f64::NEG_INFINITY]) } else { off };
         cases.push(lin_case(&LinearModel::new_from_parts(o, t, off, cs, vs, d), vec!["random-lin-odd".into()], false));
+    }
+    // --- (iii) iterated families, fragment / variable name clashes, shared row names
+    for _ in 0..n / 6 {
+        let s = family_program(&mut r);
+        from_source(&s, "generated-family", &mut cases);
     }
     // --- (iii) compiled models from generated sources
     for i in 0..n / 2 {
